@@ -46,8 +46,8 @@ def cases(tier):
     for b in g1:
       yield {'subs': [dict(a, cprefix='k_'), dict(b, cprefix='k_')], 'dup': True}
   if tier == 'thorough':
-    for a in g2[::2]:
-      for b in g2[::7]:
+    for a in g2:
+      for b in g2:
         yield {'subs': [a, b]}
     for a, b, c in itertools.product(g1, repeat=3):
       yield {'subs': [a, b, c]}
